@@ -359,7 +359,8 @@ def _job(args):
         if name.endswith("@oc"):
             # the caller keeps its option objects (a 0-d array holding a tolerance or a budget) and passes them again:
             # the judged call is the SECOND one with the same objects
-            fn(*a_call, **kw_call)
+            # (array arguments are copied for the first call - some kernels overwrite them by design -, option objects are not)
+            fn(*[x.copy() if isinstance(x, np.ndarray) else x for x in a_call], **{k_: (v_.copy() if isinstance(v_, np.ndarray) and v_.ndim else v_) for k_, v_ in kw_call.items()})
             np.random.seed(seed % (2 ** 31))
         out = fn(*a_call, **kw_call)
     attr = jn.split(".")[-1] if jn.split(".")[0][0].isupper() else jn
